@@ -1,4 +1,5 @@
 import Hertz.Model.Http1.Stream
+import Hertz.Proofs.StreamChunked
 /-!
 # C14 — a streamed request body reads exactly the body and keeps the connection in sync
 
@@ -15,9 +16,52 @@ Proved here (fixed-length bodies, all inputs):
 * `fixed_resync_exact`: when the connection is kept, the next request is parsed from exactly the first
   byte after the body, whatever the handler consumed.
 
-TODO-OPEN (decided per explored case by correspondence + spec step): the same two statements for
-chunked bodies (`consumeChunked` yields a prefix of the de-chunked body; `drainChunked` ends exactly
-after the terminating chunk and trailer), and `reads never block beyond the body` (runtime).
+Proved here (chunked bodies, all well-formed encodings — any chunking, leading zeros, blanks after the
+size, any case of the hex digits —, all texts behind the message, all read sizes and stop points;
+lemmas in `Proofs/StreamChunked.lean`):
+* `chunked_msg_is_spec_encoding`: every `ChunkedMsg` is accepted by the independent strict decoder
+  `Spec.Http.chunksAux` with body `m.body`, ending before the trailer section;
+* `chunked_reads_prefix`: the bytes the handler obtains are a prefix of the de-chunked body, at most
+  `stopAfter` of them; if no read failed they are exactly the first `stopAfter` body bytes and
+  end-of-stream is reported iff the handler asked for more than the body (no condition on the trailer);
+* `chunked_read_succeeds`, `chunked_reads_all`: with a positive read size only the trailer reader can
+  fail; with an empty trailer section nothing fails and a handler that reads to the end gets all of it
+  (this includes that the model's fuel always suffices);
+* `chunked_resync_exact`: for a trailer section of field lines (`TrFieldOk`: a colon, no LF, no leading
+  blank — a field name may start with any byte, `0` included), the connection is closed if a read
+  failed, else the next request is parsed from exactly the text behind the message (`resync rest` when
+  the handler saw end-of-stream, `either rest` = that or closed, depending on buffering, when
+  `skipRest` had to drain);
+  `chunked_resync_exact_unread`: the same for ANY trailer lines without LF (no colon needed) as long as
+  the handler has not been told end-of-stream (the drain uses `SkipTrailer`);
+* `trailer_name_zero_regression`: FOUND BY THIS PROOF, FIXED IN /repo (commit `fix: a trailer field whose
+  name starts with '0' no longer desynchronises the connection`).  The first form of the theorem above
+  needed the hypothesis "the trailer section does not begin with the byte `0`", and without it the
+  statement was false of the model and, replayed, of the real server: `ext.parseTrailer` skipped three
+  bytes whenever the section started with `0` and did not count them, so after the legal trailer field
+  `0:x` a handler that had read to the end left the connection at `x\r\n\r\n…`; the server answered 400
+  to that and the pipelined request behind the message was lost (same defect on the buffered path,
+  C01).  After the repair `parseTrailer` skips only a complete repeated `0\r\n` line and counts it; the
+  hypothesis is gone (`parseTrailer_lines`) and the witness is kept as a regression theorem and in
+  corpus/C14/trailer-zero.txt;
+* `after_means_next_request_from_rest`: in the connection loop the next request is parsed from exactly
+  the `rest` of `resync rest` / `either rest`;
+* `stream_error_closes`, `nothing_after_stream_error`: a failed body read (malformed chunk framing,
+  rejected trailer, wire ended; fixed length too) gives `After.closed`, and in the event list of the
+  whole connection nothing but that request's response follows it.
+
+TODO-OPEN:
+* trailer lines that begin with a blank (obs-fold continuation: the scanner's look-ahead `contExtra`
+  joins them to the previous field) and trailer sections with a repeated `0\r\n` line in front (hertz
+  skips and counts it — see the example below —, the strict grammar has no such line): both are outside
+  `encTrailer ls` with `TrFieldOk` lines, so `chunked_resync_exact` says nothing about them on the
+  read-to-the-end path (`chunked_resync_exact_unread` covers them on the drain path);
+* `chunked_read_succeeds` for a non-empty trailer keeps its hypothesis that the trailer reader accepts
+  the section (it may legitimately reject: forbidden names, blank in a name);
+* that every encoding accepted by `Spec.Http.chunksAux` is a `ChunkedMsg` (the converse direction
+  of `ChunkedMsg`'s definition; the spec additionally tolerates tabs after the size, hertz does not);
+* `reads never block beyond the body` (runtime, not expressible in the model);
+* the tie to the Go code stays the correspondence check (`serveStream` vs the real server per case).
 -/
 namespace Hertz.Props.C14
 open Hertz Hertz.H1 Hertz.H1.Stream
@@ -79,5 +123,201 @@ theorem fixed_resync_exact (cfg : Cfg) (e : End) (hd : ReqHead) (s : Bytes) (c :
 /-- non-vacuity: Content-Length 5, handler reads 3 bytes in one-byte reads, probe stays in sync. -/
 example : (streamBody {} .eof { cl := 5, method := [80] } [1, 2, 3, 4, 5, 71, 69, 84] { readSize := 1, stopAfter := 3 }).toOption.map
     (fun p => (p.1.got.bytes, p.1.got.eof)) = some ([1, 2, 3], false) := by decide +kernel
+
+
+/-! ## chunked bodies
+
+A well-formed chunked body is a `ChunkedMsg` (`Proofs/StreamChunked.lean`): chunks written as size line
+(1..15 hex digits read by the independent `Spec.Http.parseHex`, any number of blanks, CRLF), non-empty
+payload, CRLF; the size line of the last chunk (value 0); the trailer section.  `m.bytes` is the wire
+text, `m.body` the concatenated payloads.  Every statement is for every chunking, every text `rest`
+behind the message and every consumption program `c` (read size, stop point). -/
+
+/-- the encodings quantified over are encodings in the sense of the independent strict decoder
+(`Spec.Http.chunksAux`, as called by `Spec.Http.decodeOne`): it accepts `m.bytes`, assigns it the body
+`m.body` and ends before the trailer section. -/
+theorem chunked_msg_is_spec_encoding (m : ChunkedMsg) (hm : m.Wf) (rest : Bytes) :
+    Spec.Http.chunksAux ((m.bytes ++ rest).length + 1) (m.bytes ++ rest) [] = some (m.body, m.trailer ++ rest) :=
+  spec_decodes_msg m hm rest
+
+/-- (1) what the handler reads of a chunked body is a prefix of the de-chunked body, never more than it
+asked for (so never a byte of `rest`); if no read failed it is exactly the first `stopAfter` bytes — all
+of the body when the handler reads to the end — and end-of-stream is reported iff the handler asked
+for more than the body.  No condition on the trailer section. -/
+theorem chunked_reads_prefix (cfg : Cfg) (e : End) (hd : ReqHead) (c : Consume) (m : ChunkedMsg) (rest : Bytes)
+    (r : ReqOut) (a : After) (hcl : hd.cl = -1) (hm : m.Wf)
+    (h : streamBody cfg e hd (m.bytes ++ rest) c = .ok (r, a)) :
+    r.got.bytes <+: m.body ∧ r.got.bytes.length ≤ c.stopAfter ∧
+      (r.got.err = false →
+        r.got.bytes = m.body.take c.stopAfter ∧ (r.got.eof = true ↔ m.body.length < c.stopAfter)) := by
+  rw [streamBody_chunked cfg e hd _ c hcl] at h
+  simp only [Except.ok.injEq, Prod.mk.injEq] at h
+  rw [← h.1]
+  exact chunked_reads cfg e hd.trailer c m hm rest _
+
+/-- (1, completeness) with a positive read size the only read that can fail on a well-formed chunked
+body is the trailer reader's (`ReadTrailer` rejecting the trailer section). -/
+theorem chunked_read_succeeds (cfg : Cfg) (e : End) (hd : ReqHead) (c : Consume) (m : ChunkedMsg) (rest : Bytes)
+    (r : ReqOut) (a : After) (hcl : hd.cl = -1) (hm : m.Wf) (hr : 0 < c.readSize)
+    (ht : ∀ x, readTrailerReq cfg e hd.trailer (m.trailer ++ rest) ≠ .error x)
+    (h : streamBody cfg e hd (m.bytes ++ rest) c = .ok (r, a)) :
+    r.got.err = false := by
+  rw [streamBody_chunked cfg e hd _ c hcl] at h
+  simp only [Except.ok.injEq, Prod.mk.injEq] at h
+  rw [← h.1]
+  exact chunked_no_error cfg e hd.trailer c m hm rest _ hr (by omega) ht
+
+/-- (1, completeness) with an empty trailer section no read fails: the handler gets the first
+`stopAfter` bytes of the body, all of it if it asks for at least that much. -/
+theorem chunked_reads_all (cfg : Cfg) (e : End) (hd : ReqHead) (c : Consume) (m : ChunkedMsg) (rest : Bytes)
+    (r : ReqOut) (a : After) (hcl : hd.cl = -1) (hm : m.Wf) (hr : 0 < c.readSize) (htr : m.trailer = [13, 10])
+    (h : streamBody cfg e hd (m.bytes ++ rest) c = .ok (r, a)) :
+    r.got.err = false ∧ r.got.bytes = m.body.take c.stopAfter ∧ (m.body.length ≤ c.stopAfter → r.got.bytes = m.body) := by
+  have he : r.got.err = false := by
+    refine chunked_read_succeeds cfg e hd c m rest r a hcl hm hr ?_ h
+    intro x
+    rw [htr]
+    simp [readTrailerReq_empty]
+  have := (chunked_reads_prefix cfg e hd c m rest r a hcl hm h).2.2 he
+  refine ⟨he, this.1, fun hl => ?_⟩
+  rw [this.1, List.take_of_length_le hl]
+
+/-- (2) where the connection stands after the handler returned, for a trailer section of field lines
+(`TrFieldOk`: a colon, no LF, no leading blank; the field name may start with `0`): closed if a read
+failed; otherwise the next request is parsed from exactly `rest` — never from a suffix of the message,
+never with a byte of `rest` consumed (`either`: or the connection is closed, when the remainder of the
+message has not arrived yet). -/
+theorem chunked_resync_exact (cfg : Cfg) (e : End) (hd : ReqHead) (c : Consume) (m : ChunkedMsg)
+    (ls : List Bytes) (rest : Bytes) (r : ReqOut) (a : After) (hcl : hd.cl = -1) (hm : m.Wf)
+    (hls : ∀ l ∈ ls, TrFieldOk l) (htr : m.trailer = encTrailer ls)
+    (h : streamBody cfg e hd (m.bytes ++ rest) c = .ok (r, a)) :
+    a = if r.got.err then .closed else if r.got.eof then .resync rest else .either rest := by
+  rw [streamBody_chunked cfg e hd _ c hcl] at h
+  simp only [Except.ok.injEq, Prod.mk.injEq] at h
+  rw [← h.1, ← h.2]
+  refine chunked_after cfg e hd.trailer c m hm ls (fun l hl => (hls l hl).lineOk) htr rest _ (fun _ => ?_)
+  rw [htr]
+  exact readTrailerReq_lines cfg e hd.trailer ls rest hls
+
+/-- (2) for any trailer lines without LF (a colon is not needed): as long
+as the handler has not been told end-of-stream, the drain (`skipRest`) ends exactly behind the message. -/
+theorem chunked_resync_exact_unread (cfg : Cfg) (e : End) (hd : ReqHead) (c : Consume) (m : ChunkedMsg)
+    (ls : List Bytes) (rest : Bytes) (r : ReqOut) (a : After) (hcl : hd.cl = -1) (hm : m.Wf)
+    (hls : ∀ l ∈ ls, TrLineOk l) (htr : m.trailer = encTrailer ls) (heof : r.got.eof = false)
+    (h : streamBody cfg e hd (m.bytes ++ rest) c = .ok (r, a)) :
+    a = if r.got.err then .closed else .either rest := by
+  rw [streamBody_chunked cfg e hd _ c hcl] at h
+  simp only [Except.ok.injEq, Prod.mk.injEq] at h
+  rw [← h.1] at heof
+  simp only at heof
+  rw [← h.1, ← h.2]
+  have := chunked_after cfg e hd.trailer c m hm ls hls htr rest _ (fun hf => by rw [heof] at hf; cases hf)
+  rw [this, heof]
+  simp
+
+/-- the message of the examples and of the counterexample: `3\r\nabc\r\n02 \r\nde\r\n0\r\n` + trailer -/
+def msgOf (trailer : Bytes) : ChunkedMsg :=
+  { chunks := [{ digits := [51], pad := 0, data := [97, 98, 99] }, { digits := [48, 50], pad := 1, data := [100, 101] }],
+    zdigits := [48], zpad := 0, trailer := trailer }
+
+theorem msgOf_wf (trailer : Bytes) : (msgOf trailer).Wf := by
+  refine ⟨?_, (by decide : ([48] : Bytes).length ≤ 15), (by decide : Spec.Http.parseHex [48] = some 0)⟩
+  intro k hk
+  simp only [msgOf, List.mem_cons, List.not_mem_nil, or_false] at hk
+  rcases hk with hk | hk <;> subst hk <;> exact ⟨by decide, by decide, by decide⟩
+
+/-- Regression of a defect found by this proof work and repaired in /repo (`fix: a trailer field whose name starts
+with '0' …`): `ext.parseTrailer` used to skip three bytes whenever the trailer section started with the byte `0`
+and did not count them, so after the trailer field `0:x` the server went on at `x\r\n\r\n` + `rest` and parsed the
+tail of the trailer section as the next request.  With the repaired code the connection is positioned at `rest`. -/
+example : ∀ l ∈ [[(48 : UInt8), 58, 120]], TrFieldOk l := by
+  intro l hl
+  simp only [List.mem_cons, List.not_mem_nil, or_false] at hl
+  subst hl
+  exact ⟨by decide, by decide, by intro c t hct; simp only [List.cons.injEq] at hct; rw [← hct.1]; decide⟩
+
+theorem trailer_name_zero_regression :
+    (streamBody {} .eof { cl := -1 } ((msgOf (encTrailer [[48, 58, 120]])).bytes ++ [71, 69, 84])
+      { readSize := 10, stopAfter := 100 }).toOption.map (·.2) = some (.resync [71, 69, 84]) := by decide +kernel
+
+/-- what the `After` of (2) means for the connection: after a kept-alive streamed request the loop goes
+on with exactly the `rest` named by `resync`/`either` (or stops, for `closed`). -/
+theorem after_means_next_request_from_rest (cfg : Cfg) (e : End) (c : Consume) (fuel : Nat) (first : Bool) (s : Bytes)
+    (hd : ReqHead) (n : Nat) (r : ReqOut) (a : After)
+    (hgo : (!first && decide (s.length < 4)) = false) (hp : parseReqHead cfg.disableNorm s = .ok (hd, n))
+    (hb : streamBody cfg e hd (s.drop n) c = .ok (r, a))
+    (hk : (cfg.disableKeepalive || r.head.connClose) = false) :
+    streamLoop cfg e c (fuel + 1) first s =
+      (if mayContinue hd then [SEv.continue100] else []) ++ [.req r, .resp 200 false] ++
+        match a with
+        | .resync rest => streamLoop cfg e c fuel false rest
+        | .closed => []
+        | .either rest => .maybeClosed :: streamLoop cfg e c fuel false rest :=
+  streamLoop_after cfg e c fuel first s hd n r a hgo hp hb hk
+
+/-- non-vacuity of `after_means_next_request_from_rest` (and of the whole chain): the example message
+behind a request head, followed by a pipelined `GET /probe`; the handler stops after 4 bytes; events:
+request (1), response (2), maybe-closed (3), then the probe request with URI `/probe` and its response. -/
+example : (serveStream {} .eof { readSize := 3, stopAfter := 4 }
+    [80, 79, 83, 84, 32, 47, 99, 32, 72, 84, 84, 80, 47, 49, 46, 49, 13, 10, 72, 111, 115, 116, 58, 32,
+    104, 13, 10, 84, 114, 97, 110, 115, 102, 101, 114, 45, 69, 110, 99, 111, 100, 105, 110, 103, 58, 32,
+    99, 104, 117, 110, 107, 101, 100, 13, 10, 13, 10, 51, 13, 10, 97, 98, 99, 13, 10, 48, 50, 32, 13,
+    10, 100, 101, 13, 10, 48, 13, 10, 88, 58, 49, 13, 10, 13, 10, 71, 69, 84, 32, 47, 112, 114, 111, 98,
+    101, 32, 72, 84, 84, 80, 47, 49, 46, 49, 13, 10, 72, 111, 115, 116, 58, 32, 112, 13, 10, 13, 10]).map
+    (fun ev => match ev with
+      | .continue100 => (0, []) | .req r => (1, r.head.uri) | .resp _ _ => (2, []) | .maybeClosed => (3, [])) =
+    [(1, [47, 99]), (2, []), (3, []), (1, [47, 112, 114, 111, 98, 101]), (2, [])] := by decide +kernel
+
+/-- (3) a failed read of the body stream (malformed chunk framing, rejected trailer, wire ended) closes
+the connection, for every kind of body. -/
+theorem stream_error_closes (cfg : Cfg) (e : End) (hd : ReqHead) (s : Bytes) (c : Consume) (r : ReqOut) (a : After)
+    (h : streamBody cfg e hd s c = .ok (r, a)) (herr : r.got.err = true) : a = .closed :=
+  streamBody_err_closed cfg e hd s c r a h herr
+
+/-- (3) on the whole connection: after a request whose body read failed, nothing but that request's
+response follows — no later bytes are parsed as a request. -/
+theorem nothing_after_stream_error (cfg : Cfg) (e : End) (c : Consume) (s : Bytes) :
+    errEnds (serveStream cfg e c s) = true :=
+  streamLoop_errEnds cfg e c _ true s
+
+/-- non-vacuity of (1) and (2): the example message with trailer `X:1`, the handler stops after 4 bytes
+(inside the second chunk) reading 3 at a time; the drain ends exactly before `GET`. -/
+example : (streamBody {} .eof { cl := -1 } ((msgOf (encTrailer [[88, 58, 49]])).bytes ++ [71, 69, 84])
+    { readSize := 3, stopAfter := 4 }).toOption.map (fun p => (p.1.got.bytes, p.1.got.eof, p.1.got.err, p.2)) =
+    some ([97, 98, 99, 100], false, false, .either [71, 69, 84]) := by decide +kernel
+
+/-- the same message read to the end: all five bytes, end-of-stream, in sync. -/
+example : (streamBody {} .eof { cl := -1 } ((msgOf (encTrailer [[88, 58, 49]])).bytes ++ [71, 69, 84])
+    { readSize := 3, stopAfter := 9 }).toOption.map (fun p => (p.1.got.bytes, p.1.got.eof, p.1.got.err, p.2)) =
+    some ([97, 98, 99, 100, 101], true, false, .resync [71, 69, 84]) := by decide +kernel
+
+example : (msgOf (encTrailer [[88, 58, 49]])).Wf ∧ (∀ l ∈ [[88, 58, 49]], TrFieldOk l) :=
+  ⟨msgOf_wf _, by
+    intro l hl
+    simp only [List.mem_cons, List.not_mem_nil, or_false] at hl
+    subst hl
+    exact ⟨by decide, by decide, by intro c t hct; simp only [List.cons.injEq] at hct; rw [← hct.1]; decide⟩⟩
+
+/-- outside `chunked_resync_exact` (the line `0` has no colon), shown for the record: a repeated `0\r\n`
+line in front of the empty line is skipped and counted by the repaired `parseTrailer`; in sync. -/
+example : (streamBody {} .eof { cl := -1 } ((msgOf [48, 13, 10, 13, 10]).bytes ++ [71, 69, 84])
+    { readSize := 3, stopAfter := 9 }).toOption.map (fun p => (p.1.got.bytes, p.1.got.eof, p.1.got.err, p.2)) =
+    some ([97, 98, 99, 100, 101], true, false, .resync [71, 69, 84]) := by decide +kernel
+
+/-- non-vacuity of `chunked_reads_all`: empty trailer section, read in one-byte reads to the end. -/
+example : (msgOf [13, 10]).Wf ∧ (msgOf [13, 10]).trailer = [13, 10] := ⟨msgOf_wf _, rfl⟩
+example : (streamBody {} .stall { cl := -1 } ((msgOf [13, 10]).bytes ++ [71, 69, 84])
+    { readSize := 1, stopAfter := 5 }).toOption.map (fun p => (p.1.got.bytes, p.1.got.eof, p.1.got.err, p.2)) =
+    some ([97, 98, 99, 100, 101], false, false, .either [71, 69, 84]) := by decide +kernel
+
+/-- non-vacuity of `chunked_read_succeeds`: the trailer `X:1` is accepted by the trailer reader. -/
+example : (readTrailerReq {} .eof [] ((msgOf (encTrailer [[88, 58, 49]])).trailer ++ [71, 69, 84])).toOption.isSome = true := by
+  decide +kernel
+
+/-- non-vacuity of (3): a chunk-size line `zz` after the first chunk; the read fails and the
+connection is closed although a complete request follows. -/
+example : (streamBody {} .eof { cl := -1 } [49, 13, 10, 97, 13, 10, 122, 122, 13, 10, 13, 10, 71, 69, 84]
+    { readSize := 16, stopAfter := 50 }).toOption.map (fun p => (p.1.got.bytes, p.1.got.err, p.2)) =
+    some ([97], true, .closed) := by decide +kernel
 
 end Hertz.Props.C14
